@@ -320,6 +320,64 @@ Proof.
   destruct (fix_blockname s); [apply dget_dset_other; exact NE|reflexivity].
 Qed.
 
+(** ** two value lists with the same field texts *)
+Fixpoint fmt_same (specs : list fspec) (a b : list value) : Prop :=
+  match specs with
+  | [] => True
+  | f :: fs => match a, b with
+               | x :: a', y :: b' => fmt_field f x = fmt_field f y /\ fmt_same fs a' b'
+               | [], [] => True
+               | _, _ => False end
+  end.
+Lemma fmt_same_write specs : forall a b, fmt_same specs a b -> write_fields specs a = write_fields specs b.
+Proof.
+  induction specs as [|f fs IH]; intros a b H; [destruct a, b; reflexivity|].
+  destruct a as [|x a], b as [|y b]; try contradiction; [reflexivity|]. destruct H as [H1 H2]. cbn [write_fields]. rewrite H1, (IH a b H2). reflexivity.
+Qed.
+Lemma fmt_same_cvals specs : forall a b, fmt_same specs a b -> cvals specs a = cvals specs b.
+Proof.
+  induction specs as [|f fs IH]; intros a b H; [destruct a, b; reflexivity|].
+  destruct a as [|x a], b as [|y b]; try contradiction; [reflexivity|]. destruct H as [H1 H2]. cbn [cvals]. rewrite (IH a b H2). f_equal.
+  unfold cf. rewrite H1. reflexivity.
+Qed.
+Definition res_str_same (a b : res str) : bool := match a, b with Ok x, Ok y => str_eqb x y | _, _ => false end.
+Lemma res_str_same_eq a b : res_str_same a b = true -> a = b.
+Proof. destruct a, b; cbn; intro H; try discriminate. apply str_eqb_eq in H. subst. reflexivity. Qed.
+Fixpoint fmt_sameb (specs : list fspec) (a b : list value) : bool :=
+  match specs with
+  | [] => true
+  | f :: fs => match a, b with
+               | x :: a', y :: b' => res_str_same (fmt_field f x) (fmt_field f y) && fmt_sameb fs a' b'
+               | [], [] => true
+               | _, _ => false end
+  end.
+Lemma fmt_sameb_spec specs : forall a b, fmt_sameb specs a b = true -> fmt_same specs a b.
+Proof.
+  induction specs as [|f fs IH]; intros a b H; [exact I|]. destruct a as [|x a], b as [|y b]; try discriminate; [exact I|].
+  cbn in H. apply andb_prop in H as [H1 H2]. split; [apply res_str_same_eq; exact H1|apply IH; exact H2].
+Qed.
+(** print_block None is written as five blanks, which is what is read back: the program holds the blanks *)
+Definition norm_pb (dct : dict) : dict :=
+  match dgetv dct "print_block" with XNone => dset dct "print_block" (XStr (spaces 5)) | _ => dct end.
+Lemma norm_pb_other dct n : n <> "print_block" -> dget (norm_pb dct) n = dget dct n.
+Proof. intro NE. unfold norm_pb. destruct (dgetv dct "print_block"); try reflexivity. apply dget_dset_other. exact NE. Qed.
+Fixpoint pb_cols_ok (specs : list fspec) (ns : list string) : bool :=
+  match specs, ns with
+  | f :: fs, n :: r => (negb (n =? "print_block") || (fty_eqb (ft f) Ts && (width f =? 5)%nat)) && pb_cols_ok fs r
+  | _, _ => true
+  end.
+Lemma norm_pb_same dct : forall specs ns, pb_cols_ok specs ns = true -> fmt_same specs (dict_vals (norm_pb dct) ns) (dict_vals dct ns).
+Proof.
+  induction specs as [|f fs IH]; intros ns H; [exact I|]. destruct ns as [|n r]; [exact I|]. cbn [pb_cols_ok] in H. apply andb_prop in H as [H1 H2].
+  cbn [dict_vals map fmt_same]. split; [|apply IH; exact H2].
+  destruct (string_dec n "print_block") as [E|NE].
+  - subst n. rewrite String.eqb_refl in H1. cbn [negb orb] in H1.
+    apply andb_prop in H1 as [Ty W5]. apply fty_eqb_eq in Ty. apply Nat.eqb_eq in W5.
+    unfold norm_pb. destruct (dgetv dct "print_block") eqn:G; try (rewrite G; reflexivity).
+    unfold dgetv at 1. rewrite dget_dset_same. rewrite <- W5, <- (cf_none_str f Ty). apply stable_none.
+  - unfold dgetv. rewrite norm_pb_other by exact NE. reflexivity.
+Qed.
+
 (** ** PARAM *)
 Definition ts_items (p : params) : list item :=
   let c0 := dgetv (p_dict p) "const_timestep" in
@@ -331,19 +389,22 @@ Definition di_items (l : list value) : list item :=
   end.
 Definition prog_param (d : t2d) : list item :=
   let p := param d in
-  ([Lit (kw "PARAM"); Rec (param_spec d) (dict_vals (dict1_of p) (nm (param_spec d))); Rec "param2" (dict_vals (paramw_of p) (nm "param2"))]
+  ([Lit (kw "PARAM"); Rec (param_spec d) (dict_vals (dict1_of p) (nm (param_spec d))); Rec "param2" (dict_vals (norm_pb (paramw_of p)) (nm "param2"))]
    ++ ts_items p ++ [Rec "param3" (dict_vals (dict1_of p) (nm "param3"))] ++ di_items (p_dincons p))%list.
 (** what the writer itself needs: print_block a name or None, const_timestep a number *)
 Definition wfw_param (d : t2d) : bool :=
   let p := param d in let c0 := dgetv (p_dict p) "const_timestep" in
-  is_ok (pbw_of p) && is_ok (v_lt0 c0) && (if is_neg c0 then is_ok (v_int c0) else true).
+  is_ok (pbw_of p) && is_ok (v_lt0 c0) && (if is_neg c0 then is_ok (v_int c0) else true) && pb_cols_ok (sp "param2") (nm "param2").
 Lemma write_param_prog d : wfw_param d = true -> write_param T d = render (prog_param d).
 Proof.
-  unfold wfw_param. cbv zeta. intro H. apply andb_prop in H as [H H3]. apply andb_prop in H as [H1 H2].
+  unfold wfw_param. cbv zeta. intro H. apply andb_prop in H as [H PC]. apply andb_prop in H as [H H3]. apply andb_prop in H as [H1 H2].
   unfold write_param, prog_param. fold (pbw_of (param d)). fold (opt_str (p_option (param d))). fold (dict1_of (param d)).
   destruct (pbw_of (param d)) as [pbw|] eqn:PB; [|discriminate]. cbn [bind].
   replace (dset (p_dict (param d)) "print_block" pbw) with (paramw_of (param d)) by (unfold paramw_of; rewrite PB; reflexivity).
   cbv zeta. cbn [app]. rewrite !render_cons. cbn [render1 bind].
+  assert (NP : wline T "param2" (dict_vals (norm_pb (paramw_of (param d))) (nm "param2")) = wline T "param2" (dict_vals (paramw_of (param d)) (nm "param2"))).
+  { unfold wline, write_values. fold (sp "param2"). rewrite (fmt_same_write _ _ _ (norm_pb_same (paramw_of (param d)) _ _ PC)). reflexivity. }
+  rewrite NP. clear NP.
   destruct (wline T (param_spec d) _) as [l1|]; cbn [bind]; [|reflexivity].
   destruct (wline T "param2" _) as [l2|]; cbn [bind]; [|reflexivity].
   rewrite render_app.
@@ -376,7 +437,7 @@ Definition idem_param (dk d : t2d) : bool :=
   negb (existsb (String.eqb "_option_str") n2) && negb (existsb (String.eqb "_option_str") n3) &&
   layer_ok def n1 (vs1_of d) && layer_ok c1 n2 (vs2_of d) && layer_ok c2 n3 (vs3_of d) &&
   (* print_block: what the writer takes from the re-read parameters is what was read *)
-  value_eqb (dgetv (paramw_of pc) "print_block") (dgetv u2 "print_block") && is_ok (pbw_of pc) &&
+  value_eqb (dgetv (norm_pb (paramw_of pc)) "print_block") (dgetv u2 "print_block") && is_ok (pbw_of pc) &&
   (* the lists read back whole *)
   all_some (map (cf (field0 T "timestep")) (p_timestep (param d))) &&
   negb (existsb (String.eqb "const_timestep") n3).
@@ -391,6 +452,7 @@ Theorem prog_param_canon dk d X : param_table_ok T = true -> wf_param T (map s2l
   prog_param X = map citem (prog_param d) /\ wfw_param X = true.
 Proof.
   intros TOK WF ID WW PX AX. unfold param_table_ok in TOK.
+  assert (PC : pb_cols_ok (sp "param2") (nm "param2") = true) by (unfold wfw_param in WW; cbv zeta in WW; apply andb_prop in WW as [_ PC]; exact PC).
   apply andb_prop in TOK as [TOK _]. apply andb_prop in TOK as [TOK C4]. apply andb_prop in TOK as [TOK U4].
   apply andb_prop in TOK as [U8 C8].
   unfold wf_param in WF. cbv zeta in WF.
@@ -425,11 +487,11 @@ Proof.
   { fold n3. apply (layer_vals _ _ _ _ L3). intros n I. apply dgetv_of_dget. unfold dict1_of. rewrite PD.
     rewrite dget_dset_other by (intro E; subst n; apply (not_in_names _ _ O3 I)). reflexivity. }
   (* line 2 *)
-  assert (R2 : dict_vals (paramw_of (param X)) (nm "param2") = vs2_of d).
+  assert (R2 : dict_vals (norm_pb (paramw_of (param X))) (nm "param2") = vs2_of d).
   { fold n2. apply (layer_vals _ _ _ _ L2). intros n I.
     destruct (string_dec n "print_block") as [E|NE].
     - subst n. rewrite PX. exact PBE.
-    - apply dgetv_of_dget. unfold paramw_of. rewrite dget_dset_other by exact NE. rewrite PD. rewrite G3 by (apply (disjoint_spec n2 n3 n D23 I)).
+    - apply dgetv_of_dget. rewrite norm_pb_other by exact NE. unfold paramw_of. rewrite dget_dset_other by exact NE. rewrite PD. rewrite G3 by (apply (disjoint_spec n2 n3 n D23 I)).
       unfold c2, cd2. rewrite pb_fix_other by exact NE. reflexivity. }
   (* const_timestep and the lists *)
   set (c := dgetv c2 "const_timestep") in *. set (c0 := dgetv (p_dict (param d)) "const_timestep") in *.
@@ -451,8 +513,10 @@ Proof.
     assert (EDI : di_items (p_dincons (param X)) = map citem (di_items (p_dincons (param d)))).
     { rewrite DIX. unfold di_items. destruct (p_dincons (param d)) as [|v0 vs]; [reflexivity|]. cbn [map]. rewrite <- (map_cons (cf (field0 T "default_incons"))).
       rewrite map_length. apply chunk_items_cf. exact U4. }
-    unfold prog_param. cbv zeta. rewrite R1, R2, R3, SPX, ETS, EDI. rewrite !map_app. reflexivity.
-  - unfold wfw_param. cbv zeta. rewrite CX, PX, PBO, OKC, NG. cbn [andb]. destruct (is_neg c0) eqn:N; [|reflexivity]. apply (VI eq_refl).
+    assert (NV : cvals (sp "param2") (dict_vals (norm_pb (paramw_of (param d))) (nm "param2")) = vs2_of d).
+    { unfold vs2_of. apply fmt_same_cvals, norm_pb_same. exact PC. }
+    unfold prog_param. cbv zeta. rewrite R1, R2, R3, SPX, ETS, EDI. rewrite !map_app. cbn [map citem]. rewrite NV. reflexivity.
+  - unfold wfw_param. cbv zeta. apply andb_true_intro. split; [|exact PC]. rewrite CX, PX, PBO, OKC, NG. cbn [andb]. destruct (is_neg c0) eqn:N; [|reflexivity]. apply (VI eq_refl).
 Qed.
 
 End WithTable3.
